@@ -1,5 +1,6 @@
 import Preflate.Props.C05
 #print axioms Preflate.parse_no_panic
 #print axioms Preflate.parse_no_fuel
+#print axioms Preflate.tree_index_safe
 #print axioms Preflate.encStream_no_panic
 #print axioms Preflate.verify_path_ok
